@@ -148,6 +148,10 @@ def run(c):
                 begins += 1
             elif ln.startswith('{"e":"End"'):
                 ends += json.loads(ln)["nseq"]
+            elif ln.startswith('{"e":"Obs"') and "obs" not in box:
+                r = box["obs"] = json.loads(ln)
+                c.note("amgcl_params_setf on %d general floats: %d read back as the same float (judged), %d as the same double "
+                       "(not judged; e.g. 1e-6f is stored as '%s')" % (r["n"], r["f32same"], r["f64same"], r.get("text1", "")))
             elif '"c":[' in ln or '"lv":' in ln:
                 r = json.loads(ln)
                 if "lv" in r:
